@@ -179,7 +179,13 @@ func VerifHarness_C15_synth() {
 		body[1].val = nil
 		refTag = 58
 	case c15Malformed:
-		switch verifConc(ndInt("malformed", 0, 3)) {
+		switch verifConc(ndInt("malformed", 0, 5)) {
+		case 4:
+			body[5].val = []byte("2e2") // a float in exponent notation is not a FIX float
+			refTag = 44
+		case 5:
+			body[5].val = []byte("Inf")
+			refTag = 44
 		case 0:
 			body[3].val = []byte("x")
 			refTag = 99
